@@ -7,8 +7,11 @@ use vp::props::{c03, c04};
 fuzz_target!(|data: &[u8]| {
     let mut u = Unstructured::new(data);
     if let Ok(case) = vp::decode::c03_case(&mut u) {
-        vp::fuzzrt::fuzz_one::<c03::Hist>("C03", &case);
-        if case.compress {
+        let only = std::env::var("FUZZ_PROP").unwrap_or_default();
+        if only != "C04" {
+            vp::fuzzrt::fuzz_one::<c03::Hist>("C03", &case);
+        }
+        if case.compress && only != "C03" {
             vp::fuzzrt::fuzz_one::<c04::WellFormed>("C04", &case);
         }
     }
